@@ -66,5 +66,8 @@ func (r reader) ReadHeader() (h FormatHeader, err error) {
 		return
 	}
 	h.Type, err = r.ReadUint64()
+	if err == io.EOF { // the stream can end before a header, not inside of it
+		err = io.ErrUnexpectedEOF
+	}
 	return
 }
